@@ -69,7 +69,7 @@ def build_variant(root, be, defs, items_path, key):
         f.write("[net]\noffline = true\n")
     tdir = os.path.join(pl.CACHE, f"target-gen-{key}-{be}")
     env = dict(pl.ENV, CARGO_TARGET_DIR=tdir, RUSTFLAGS="-Awarnings")
-    p = subprocess.run(["cargo", "build", "--features", "serde,g_ser,g_derived,g_rate,g_tconv" + (",dec" if be == "dec" else ""), "--message-format=short"],
+    p = subprocess.run(["cargo", "build", "--features", "g_derived,g_rate,g_tconv" + (",dec" if be == "dec" else ""), "--message-format=short"],
                        cwd=vdir, env=env, stdout=subprocess.PIPE, stderr=subprocess.STDOUT, text=True, timeout=3600)
     return p.returncode == 0, p.stdout, os.path.join(tdir, "debug/harness"), dump, failed
 
@@ -79,11 +79,11 @@ def script(w, rng, tier):
     line per operator kind and type to see that the full set of operators exists (values of the
     operators are the business of C01-C05, C13, C15)"""
     import props.c01 as c01, props.c03 as c03, props.c02 as c02, props.c04 as c04
-    import props.c08 as c08, props.c09 as c09, props.c15 as c15, props.c17 as c17
+    import props.c08 as c08, props.c09 as c09, props.c15 as c15
     ops = []
     for m in (c09, c08):
         ops += [("strict:" + lab, l) for lab, l in m.gen(w, rng, "quick")]
-    for m in (c01, c03, c02, c04, c15, c17):
+    for m in (c01, c03, c02, c04, c15):
         part = m.gen(w, rng, "quick")
         seen = set()
         for lab, l in part:
